@@ -278,6 +278,20 @@ def jump_models():
                             E({'binary': {'op': '+', 'left': V('r'), 'right': {'group': CALL('k')}}}), {'return': {'expr': V('q')}}])]},
         'assignment to the empty name and jumps without a condition': {'statements': [
             E(CALL('f'), ''), E({'number': 1.0}, ''), J('end'), L('end'), FN('z', None, [E(CALL('f'), ''), E({'number': 2.0}, ''), {'return': {'expr': V('')}}])]},
+        'names that are special words in other positions (if / true / false / null as variables, arguments and callees)': {'statements': [
+            FN('w', ['if', 'other'], [{'return': {'expr': {'binary': {'op': '+', 'left': V('if'), 'right': V('other')}}}}]),
+            FN('v', ['true', 'null'], [E(CALL('true', V('null'))), E(CALL('systemLog', {'number': 1.0}), 'false'), E(CALL('false')), {'return': {}}]),
+            FN('u', ['x'], [E(CALL('if', V('x'), {'number': 1.0}, {'number': 2.0}), 'r'), {'return': {'expr': V('r')}}]),
+            E(CALL('w', {'number': 1.0}, {'number': 2.0})), E(CALL('v')), E(CALL('u'))]},
+        'expression statements: a call on the left, call-free binary expressions on the right': {'statements': [
+            E({'binary': {'op': '||', 'left': CALL('note', {'string': 'a'}), 'right': {'binary': {'op': '+', 'left': {'number': 1.0}, 'right': {'number': 1.0}}}}}),
+            E({'binary': {'op': '+', 'left': CALL('f'), 'right': {'binary': {'op': '*', 'left': {'number': 2.0}, 'right': {'number': 3.0}}}}}),
+            E({'binary': {'op': '&&', 'left': CALL('check'), 'right': {'binary': {'op': '==', 'left': V('y'), 'right': {'number': 1.0}}}}}),
+            E({'binary': {'op': '+', 'left': {'binary': {'op': '*', 'left': V('a'), 'right': V('b')}}, 'right': {'binary': {'op': '-', 'left': V('c'), 'right': CALL('g')}}}}),
+            E({'binary': {'op': '+', 'left': {'binary': {'op': '*', 'left': V('a'), 'right': V('b')}}, 'right': {'binary': {'op': '-', 'left': V('c'), 'right': V('d')}}}}),
+            E({'unary': {'op': '-', 'expr': {'binary': {'op': '+', 'left': CALL('h'), 'right': {'group': {'binary': {'op': '*', 'left': {'number': 2.0}, 'right': {'number': 3.0}}}}}}}}),
+            FN('p2', None, [E({'binary': {'op': '+', 'left': CALL('f'), 'right': {'binary': {'op': '*', 'left': {'number': 2.0}, 'right': {'number': 3.0}}}}}), {'return': {}}]),
+            E(CALL('p2'))]},
         'empty script': {'statements': []},
     }
 
